@@ -1,6 +1,8 @@
 #!/bin/bash
 # tools/tryseed.sh <seeded-dir> <Cxx> [tier] : applies a seeded change to /repo, runs the check, undoes it.
 dir=$1; prop=$2; tier=${3:-quick}
+# serialise with other users of /repo's working tree (tools/sweep.sh)
+exec 9>/tmp/verif-repo.lock; flock 9
 cd /repo || exit 9
 if [ -n "$(git status --porcelain)" ]; then echo "repo dirty"; exit 9; fi
 git apply "$dir/patch.diff" || { echo "patch does not apply"; exit 9; }
